@@ -168,6 +168,11 @@ func (fc *FnCtx) addrBase(a *Addr) (name string, idx []string) {
 		if !fc.eng.mutableGlobal[a.Global] {
 			fc.immut["G$"+sanitize(a.Global.Pkg.Pkg.Name()+"."+a.Global.Name())+"$"] = true
 		}
+	case AOpaque:
+		// pointers to non-struct values that are not interior pointers into a
+		// tracked object: one memory per pointee type, indexed by the pointer
+		name = "BX$" + typeName(a.T) + "$"
+		idx = []string{a.Base}
 	default:
 		panic("addrBase: bad kind")
 	}
